@@ -6,3 +6,6 @@ package tree
 // report its machine steps to an optional per-instance hook (used by external trace
 // validation). Untagged builds emit exactly the same code as before.
 const verifEnabled = false
+
+// verifGate is a no-op outside builds tagged "verif".
+func verifGate(pass, ev, arg string) {}
